@@ -751,6 +751,10 @@ def run(prog, rep, tier):
     rep.floor('KRYLOV-cache-readonly', 8)
     rep.floor('WRAP-attrs', 8)
     rep.assumptions += ['Rayleigh quotients, residuals, convergence are NOT decided']
+    from ..flow import check_dead_computations
+    rep.rule('VALUE-dead', 'no result of a call is bound to a local that is never read (reaching '
+             'definitions)')
+    check_dead_computations(prog, rep, ['tenpy/linalg/krylov_based.py', 'tenpy/linalg/sparse.py'])
     return rep.finish(
         level='other',
         explanation='Sibling-loop agreement of the Lanczos recurrence (independence of N_cache), '
